@@ -28,10 +28,9 @@ Step(sch, allowIds, m, e) ==
         acc1 == m.acc \o TagsOf(e, OpenIds(m.open))
         m1 == [m EXCEPT !.dest = dest1, !.open = open1, !.acc = acc1]
     IN
-    IF e.k = "write_raw" THEN [m1 EXCEPT !.live = FALSE]          \* unvalidated raw bytes: outside the property
-    ELSE IF AnyKnown(open1) THEN
+    IF AnyKnown(open1) THEN
       (IF e.dest_tail # <<>> THEN Fail(m, "C10: bytes were handed over while a known-size master is open") ELSE m1)
-    ELSE IF e.k \in {"elem", "rawtag", "full", "end", "flush", "into_inner"} THEN
+    ELSE IF e.k \in {"elem", "rawtag", "write_raw", "full", "end", "flush", "into_inner"} THEN
       \* read to its end, the destination yields the tags written so far; the End of an unknown-size master has no
       \* bytes of its own, so masters still open (and unknown-size masters already ended) are closed by the end of input
       LET p == ParseAll(sch, ReadCfg(allowIds, TRUE), dest1)
